@@ -420,7 +420,11 @@ def run(R):
     # recursive calls: to itself or to a wrapper that (only) forwards to it
     wrappers = {f.key}
     for g in P.fns.values():
-        if g.spath.startswith(PARSER) and g.key != f.key and any(f.key in P.callee_keys(g, c) for c in g.calls) and len(g.calls) <= 3:
+        if not (g.spath.startswith(PARSER) and g.key != f.key and g.kind != "Closure"):
+            continue
+        # (the wrapper may hand the call to a `restoring_depth(.., |parser| parser.internal(..))` helper: closures spliced in)
+        gd = PR.desugared(P, PR.view(P, g))
+        if any(f.key in P.callee_keys(gd, c) for c in gd.calls) and len([c for c in gd.calls if not short(c.name).startswith("core::")]) <= 3:
             wrappers.add(g.key)
     rec = [c for c in f.calls if any(k in wrappers for k in P.callee_keys(f, c))]
     cmp_ops = [(i, s) for i, s in f.stmts() if s["k"] == "assign" and s["rv"]["k"] == "binop" and s["rv"]["op"] in ("Lt", "Le", "Gt", "Ge")
